@@ -202,14 +202,14 @@ def rf24_call(d, toks):
         a = t[1]
         v = getattr(d, a)
         if a in ("listen", "tx_full", "irq_dr", "irq_ds", "irq_df", "ack", "allow_ask_no_ack", "power",
-                 "is_lna_enabled", "rpd", "is_plus_variant", "ce_pin"):
+                 "is_lna_enabled", "rpd", "is_plus_variant"):
             return sb(v)
         if a == "pipe":
             return "N" if v is None else str(v)
         return str(int(v))
     if t[0] == "set":
         a = t[1]
-        if a in ("listen", "ack", "allow_ask_no_ack", "power", "ce_pin"):
+        if a in ("listen", "ack", "allow_ask_no_ack", "power"):
             setattr(d, a, pb(t[2]))
         elif a == "pa_level" and len(t) == 4:
             setattr(d, a, (parse_arg(t[2]), pb(t[3])))
